@@ -33,6 +33,7 @@ import (
 	"strconv"
 	"strings"
 	"sync"
+	"sync/atomic"
 	"testing"
 	"testing/synctest"
 	"time"
@@ -204,6 +205,75 @@ type svcHarness struct {
 	wres    [][]string
 
 	problems []string
+
+	inStartAsync atomic.Bool
+	inProbe      atomic.Bool
+	nprobes      int
+	probeMu      sync.Mutex
+	probes       []probeObs
+}
+
+// probeObs is what an observer goroutine that overlaps a StartAsync call saw (State, then ServiceContext, then
+// FailureCase). The observer is started from the Done method of the parent context handed to StartAsync, i.e. at
+// the point where StartAsync derives the service context - the only place where the code under test calls back
+// into its caller while it is inside a critical section.
+type probeObs struct {
+	St     string `json:"st"`
+	Ctx    string `json:"ctx"`
+	Fail   string `json:"fail"`
+	Inside bool   `json:"inside"` // the observer finished before the Done method returned
+}
+
+// probeCtx is the parent context of the replayed services: an ordinary cancellable context whose Done method,
+// when called from inside StartAsync, lets a concurrent observer of the service run.
+type probeCtx struct {
+	context.Context
+	h *svcHarness
+}
+
+func (p *probeCtx) Done() <-chan struct{} {
+	h := p.h
+	if h.inStartAsync.CompareAndSwap(true, false) {
+		var done atomic.Bool
+		go func() {
+			o := probeObs{St: h.svc.State().String(), Ctx: "nil"}
+			if c := h.svc.ServiceContext(); c != nil {
+				o.Ctx = "live"
+				if c.Err() != nil {
+					o.Ctx = "done"
+				}
+			}
+			o.Fail = nameOf(h.svc.FailureCase())
+			o.Inside = h.inProbe.Load()
+			h.probeMu.Lock()
+			h.probes = append(h.probes, o)
+			h.probeMu.Unlock()
+			done.Store(true)
+		}()
+		// hand the processor to the observer; if StartAsync holds the service lock here (as the specification's
+		// single critical section says) the observer blocks on it and runs once StartAsync has finished
+		h.inProbe.Store(true)
+		for i := 0; i < 32 && !done.Load(); i++ {
+			runtime.Gosched()
+		}
+		h.inProbe.Store(false)
+	}
+	return p.Context.Done()
+}
+
+// probeIssues checks what the observers saw against the invariant ContextOnceStarted of Service.tla (TLC checks it on
+// every configuration): a service that is observably Starting/Running/Stopping/Failed has a service context.
+func (h *svcHarness) probeIssues() (bad []probeObs) {
+	h.probeMu.Lock()
+	defer h.probeMu.Unlock()
+	for _, o := range h.probes {
+		if o.Ctx == "nil" && o.St != "New" && o.St != "Terminated" {
+			bad = append(bad, o)
+		}
+	}
+	h.nprobes += len(h.probes)
+	h.probes = nil
+	return bad
 }
 
 func has(set []string, x string) bool {
@@ -328,7 +398,9 @@ func (h *svcHarness) stopAsync(c int) {
 func (h *svcHarness) apply(s step) error {
 	switch s.Label {
 	case "StartAsync":
-		err := h.svc.StartAsync(h.parent)
+		h.inStartAsync.Store(true)
+		err := h.svc.StartAsync(&probeCtx{Context: h.parent, h: h})
+		h.inStartAsync.Store(false)
 		if err == nil {
 			h.starts = append(h.starts, "ok")
 		} else if m := invalidStateRe.FindStringSubmatch(err.Error()); m != nil && m[2] == "New" {
@@ -625,6 +697,10 @@ func replayOne(t *testing.T, tr *trie, leaf string, rc replayCfg) (mis []abs.Mis
 			got := h.observe()
 			if got.St != "New" {
 				nontrivial = true
+			}
+			for _, p := range h.probeIssues() {
+				report("probe:ServiceContext-nil-in-"+p.St+"-during-StartAsync", i, p, "a service context once the service is observably "+p.St+
+					" (Service.tla: ContextOnceStarted; StartAsync is one critical section)", "observer overlapping "+s.String())
 			}
 			for ; seenPanics < len(h.panics); seenPanics++ {
 				// the property says StopAsync never panics: reported whatever the specification variant says
